@@ -991,6 +991,8 @@ func (c *Ctx) ruleRegistry() {
 		}
 	}
 	c.R.Require("R-registry", 6)
+
+	c.ruleEveryEntryRegistered("R-registry")
 }
 
 func (c *Ctx) ruleCycle(vtree map[*ssa.Function]bool, tb *ir.TB, rejects func(*ssa.Function, edge) bool) {
@@ -1369,4 +1371,76 @@ func (c *Ctx) rangesOverKind(fn *ssa.Function, factory string) bool {
 		}
 	})
 	return found
+}
+
+// ruleEveryEntryRegistered (C11 R-registry|every-entry, C09 R-registered)
+func (c *Ctx) ruleEveryEntryRegistered(rule string) {
+	// every configured object is registered: in the instantiation code a loop that registers objects
+	// (RegisterSensor / RegisterSpeedCurve / RegisterFan ...: a function of the registry packages that reaches a
+	// concurrent-map Set) registers one in every iteration, or leaves the function. The validator only
+	// guarantees that referenced ids are *defined*; the curves and controllers look them up in the registries
+	// without an existence test, so an entry skipped here (a `continue` on a failed first read) is a nil
+	// dereference in the first cycle of a configuration that validated.
+	registers := func(f *ssa.Function) bool {
+		if f == nil {
+			return false
+		}
+		p := load_FuncPkgPath(f)
+		if p != PkgCurves && p != PkgSensors && p != PkgFans {
+			return false
+		}
+		return c.reaches(f, func(cc ssa.CallInstruction) bool {
+			name := ir.CallName(cc)
+			return strings.HasSuffix(name, ".Set") && strings.Contains(name, "concurrent-map")
+		})
+	}
+	nreg := 0
+	for _, fn := range c.P.Funcs {
+		if load_FuncPkgPath(fn) != PkgInternal || len(fn.Blocks) == 0 {
+			continue
+		}
+		isReg := func(ins ssa.Instruction) bool {
+			cc, ok := ins.(ssa.CallInstruction)
+			if !ok {
+				return false
+			}
+			if _, isGo := ins.(*ssa.Go); isGo {
+				return false
+			}
+			return registers(ir.Callee(cc).Static)
+		}
+		done := map[*ssa.BasicBlock]bool{}
+		Instrs(fn, func(ins ssa.Instruction) {
+			if !isReg(ins) {
+				return
+			}
+			h := loopHead(ins.Block())
+			if h == nil || done[h] {
+				return
+			}
+			done[h] = true
+			nreg++
+			key := c.FK(fn) + "|" + ir.CallName(ins.(ssa.CallInstruction))
+			skipped := ""
+			for _, pred := range h.Preds {
+				if !h.Dominates(pred) {
+					continue
+				}
+				pred := pred
+				ir.Search{StopInstr: isReg}.Reach([]ir.Point{{Block: h, Idx: 0}}, func(x ssa.Instruction, _ *ssa.BasicBlock) {
+					if x.Block() == pred && x == pred.Instrs[len(pred.Instrs)-1] && skipped == "" {
+						skipped = c.P.Pos(ins.Pos())
+					}
+				})
+			}
+			if skipped != "" {
+				c.R.Bad(rule, key+"|every-entry", c.FK(fn), skipped, "an iteration over the configured entries can go on to the next entry without registering the object: a configured (and validated) id is then missing from the registry, and the code that looks it up dereferences the result without an existence test")
+			} else {
+				c.R.Ok(rule, key+"|every-entry", c.FK(fn), c.P.Pos(ins.Pos()), "every iteration over the configured entries registers its object or leaves the function")
+			}
+		})
+	}
+	if nreg == 0 {
+		c.R.Undecided(rule, "every-entry", PkgInternal, "-", "no registering loop found in the instantiation code (anchor unresolved)")
+	}
 }
